@@ -103,6 +103,15 @@ pub fn all() -> Vec<Scenario> {
         ops.push(refresh(&p, &[]));
         out.push(Scenario { name: "schema-changes", class: "maint:keyspace-not-tablet-drops", peers: p.clone(), keyspaces: kss.clone(), ops });
     }
+    {
+        // a tablet split seen by two in-flight requests: both tablets arrive in one batch, the later one wins
+        let ops = vec![
+            add("t", 0, 100, &[(&p[0], 1)]),
+            Op::Batch { items: vec![("kx".into(), "t".into(), 0, 100, vec![(p[1].host, 2)]), ("kx".into(), "t".into(), 0, 50, vec![(p[2].host, 3)])] },
+            Op::Batch { items: vec![("kx".into(), "t".into(), 40, 60, vec![(p[3].host, 4)]), ("kx".into(), "t".into(), 40, 60, vec![(p[4].host, 5)]), ("kx".into(), "t".into(), 55, 70, vec![(p[0].host, 6)])] },
+        ];
+        out.push(Scenario { name: "batched-overlapping-tablets", class: "batch:several-tablets-in-one-update", peers: p.clone(), keyspaces: kss.clone(), ops });
+    }
     // twins: every refresh that leaves the schema as it is becomes a partial topology refresh
     // (the driver re-reads only the peers); the expected outcome is the same
     let twins: Vec<Scenario> = out
